@@ -9,6 +9,8 @@ import (
 	"sort"
 
 	"github.com/foxglove/mcap/go/mcap"
+	"github.com/klauspost/compress/zstd"
+	"github.com/pierrec/lz4/v4"
 	"verifharness/wl"
 )
 
@@ -64,6 +66,15 @@ func Options(k wl.Config) *mcap.WriterOptions {
 	switch k.Compression {
 	case "custom":
 		o.Compressor = mcap.NewCustomCompressor(mcap.CompressionFormat(wl.CustomCompression), &xorWriter{})
+	case "lz4-nochecksum":
+		// what writers in other languages emit: an lz4 frame without the optional content checksum,
+		// so that the MCAP chunk CRC is the only integrity check
+		zw := lz4.NewWriter(io.Discard)
+		_ = zw.Apply(lz4.ChecksumOption(false))
+		o.Compressor = mcap.NewCustomCompressor(mcap.CompressionLZ4, zw)
+	case "zstd-nochecksum":
+		zw, _ := zstd.NewWriter(io.Discard, zstd.WithEncoderCRC(false))
+		o.Compressor = mcap.NewCustomCompressor(mcap.CompressionZSTD, zw)
 	default:
 		o.Compression = mcap.CompressionFormat(k.Compression)
 	}
